@@ -10,6 +10,7 @@ import Driver.Frame
 import Driver.Codec
 import Driver.Reasm
 import Driver.Handles
+import Driver.Settle
 
 structure DState where
   sess : Amqp.Session.St := Amqp.Session.init 0 0 0
@@ -18,6 +19,8 @@ structure DState where
   frame : Nat × Amqp.Frame.DecSt := (512, Amqp.Frame.decInit)
   reasm : Option Amqp.Reasm.Inc := none
   links : Amqp.Handles.Links := Amqp.Handles.Links.empty
+  settle : Amqp.Settle.St := Amqp.Settle.init []
+  rsettle : Amqp.Settle.RSt := Amqp.Settle.rinit false
 
 def handle (st : DState) (line : String) : DState × String :=
   match Driver.words line with
@@ -45,6 +48,14 @@ def handle (st : DState) (line : String) : DState × String :=
   | "H" :: ws =>
     match Driver.Handles.step st.links ws with
     | some (s, out) => ({ st with links := s }, out)
+    | none => (st, "bad-op")
+  | "Z" :: ws =>
+    match Driver.Settle.step st.settle ws with
+    | some (s, out) => ({ st with settle := s }, out)
+    | none => (st, "bad-op")
+  | "Y" :: ws =>
+    match Driver.Settle.rstepLine st.rsettle ws with
+    | some (s, out) => ({ st with rsettle := s }, out)
     | none => (st, "bad-op")
   | "W" :: ws => (st, (Driver.Credit.wait ws).getD "bad-op")
   | _ => (st, "bad-op")
